@@ -943,6 +943,307 @@ def _peer_member(shape: str, rid: Any) -> Any:
         m["error"] = {"code": -32000, "message": "x"}
     return m
 
+# ---------------------------------------------------------------------------
+# (b') emitters that add a progress token to the caller's params
+# ---------------------------------------------------------------------------
+def _meta_params() -> List[Any]:
+    base = [None, {}, {"k": None}, {"_meta": {}}, {"_meta": {"other": 1}}, {"_meta": {"progressToken": "stale", "x": None}},
+            {"_meta": {"nested": {"n": None}, "list": [None]}, "a": [None]},
+            {"_meta": {"other": "é \U0001F600"}, "arguments": {"n": None}},
+            {"_meta": {"progressToken": 5}}, {"_meta": {"": None, "a b": {}}, "": {}}]
+    for o in table("objects", 1):
+        base.append({**copy.deepcopy(o), "_meta": {"other": copy.deepcopy(o), "n": None}})
+    return base
+
+
+def _strip_token(params: Any) -> Any:
+    """params without _meta.progressToken (and without an _meta left empty by that)."""
+    if not isinstance(params, dict):
+        return params
+    p = copy.deepcopy(params)
+    m = p.get("_meta")
+    if isinstance(m, dict):
+        m.pop("progressToken", None)
+        if not m:
+            del p["_meta"]
+    return p
+
+
+def discover_progress_emitters(disc) -> List[Dict[str, Any]]:
+    out = []
+    for h in disc["helpers"]:
+        f = hd.resolve(h["name"])
+        if "progress_callback" in inspect.signature(f).parameters:
+            out.append({"what": "helper", "name": h["name"], "kind": h["kind"]})
+    for c in discover_constructors():
+        if "progress_token" in c["params"]:
+            out.append({"what": "ctor", "ctor": c})
+    return out
+
+
+def _run_progress(cfg) -> Dict[str, Any]:
+    em = cfg["emitter"]
+    cases = _meta_params()[cfg["lo"]:cfg["hi"]]
+    outs = set()
+    if em["what"] == "ctor":
+        f = _ctor(em["ctor"])
+        J = Judge(_ctor_label(em["ctor"]) + "+progress_token")
+        for p in cases:
+            for tok in TOKENS:
+                J.count("cases")
+                ctx = f"{J.emitter}(params={_show(p)}, progress_token={_show(tok)})"
+                try:
+                    m = f("tools/call", copy.deepcopy(p), 7, progress_token=tok)
+                except Exception as e:  # noqa: BLE001
+                    J.bad("emitter-raised", f"raised {type(e).__name__}: {str(e)[:100]}; {ctx}", exc=type(e).__name__)
+                    continue
+                want = copy.deepcopy(p) if isinstance(p, dict) else {}
+                want.setdefault("_meta", {})
+                want["_meta"] = {**want["_meta"], "progressToken": tok}
+                J.emitted(m, "request", {"id": 7, "method": "tools/call", "params": want}, ctx)
+                outs.add("ctor")
+        return {"outcome": "progress:ctor", "violations": J.viol, "counters": J.cnt, "emitter": J.emitter, "wire_digest": J.h.hexdigest()}
+    func = hd.resolve(em["name"])
+    sname = hd.short(em["name"])
+    J = Judge(sname + "+progress_callback")
+
+    async def on_progress(progress, total, message):
+        return None
+
+    for p in cases:
+        prof = hd.Profile(rich=False, payload=copy.deepcopy(p) if isinstance(p, dict) else None)
+        fixed: Dict[str, Any] = {"progress_callback": on_progress}
+        if "params" in inspect.signature(func).parameters:
+            fixed["params"] = copy.deepcopy(p)
+        try:
+            kw = hd.build_kwargs(func, prof, fixed=fixed)
+        except hd.Uncallable as e:
+            raise core.HarnessError(f"helper {em['name']} (takes a progress callback) cannot be called: {e}") from None
+
+        def script(req, n):
+            return [hd.incoming({"jsonrpc": "2.0", "id": req["id"], "result": hd.result_for(func, req)})]
+
+        o = hd.drive(func, kw, script, timeout=2.0)
+        J.count("calls")
+        ctx = f"{sname}(params={_show(p)}, progress_callback=<callback>)"
+        if o["status"] != "ok" or not o["writes"]:
+            J.bad("nothing-emitted", f"{o['status']} / {o.get('outcome')}: no request written; {ctx}")
+            continue
+        outs.add(o["outcome"])
+        for form, w in forms_of(o["writes"][0]).items():
+            if isinstance(w, Exception) or not isinstance(w, dict):
+                J.wire(w, form, "request", None, ctx)
+                continue
+            got = w.get("params")
+            tok = got.get("_meta", {}).get("progressToken") if isinstance(got, dict) and isinstance(got.get("_meta"), dict) else _ABSENT
+            if tok is _ABSENT or isinstance(tok, bool) or not isinstance(tok, (str, int)) or tok == "":
+                J.bad("progress-token-missing", f"{form}: params {_show(got)} carry no usable _meta.progressToken; {ctx}", form=form)
+            if "params" in fixed:
+                a, b = _strip_token(got), _strip_token(p if isinstance(p, dict) else {})
+                a = a if a else {}
+                if not strict_eq(a, b):
+                    J.bad("payload-altered", f"{form}: emitted params {_show(got)}; apart from the token the caller gave {_show(p)}; {ctx}",
+                          form=form, member="params", how=_diff_class(a, b))
+            J.wire(w, form, "request", None, ctx)
+    return {"outcome": "progress:" + "+".join(sorted(outs)), "violations": J.viol, "counters": J.cnt, "emitter": J.emitter,
+            "wire_digest": J.h.hexdigest()}
+
+
+# ---------------------------------------------------------------------------
+# (d'') what the three transports put on the wire, for messages built every way
+# ---------------------------------------------------------------------------
+WAYS = ["create", "unified-classmethod", "class+jsonrpc", "class-default-jsonrpc", "unified+jsonrpc", "unified-default-jsonrpc",
+        "parse_message", "model_validate", "model_validate-without-jsonrpc", "dict"]
+POST_TRANSPORTS = ["stdio", "streamable-http", "sse"]
+POST_KINDS = ["request", "notification", "result", "error"]
+
+
+def _post_payloads() -> List[Any]:
+    objs = table("objects", 1)
+    return [None] + objs[:24] + [objs[i] for i in range(24, len(objs), 7)]
+
+
+def _built(way: str, kind: str, rid: Any, p: Any):
+    """(message object or dict, expected members) - or None when this way cannot express the case."""
+    from chuk_mcp.protocol.messages import json_rpc_message as jm
+
+    m = METHODS[0]
+    if kind == "request":
+        wire = {"jsonrpc": "2.0", "id": rid, "method": m}
+        exp = {"id": rid, "method": m, "params": _ABSENT if p is None else p}
+        cls, args = jm.JSONRPCRequest, {"id": rid, "method": m, "params": copy.deepcopy(p)}
+    elif kind == "notification":
+        wire = {"jsonrpc": "2.0", "method": m}
+        exp = {"method": m, "params": _ABSENT if p is None else p}
+        cls, args = jm.JSONRPCNotification, {"method": m, "params": copy.deepcopy(p)}
+    elif kind == "result":
+        if p is None:
+            return None
+        wire = {"jsonrpc": "2.0", "id": rid, "result": copy.deepcopy(p)}
+        exp = {"id": rid, "result": p}
+        cls, args = jm.JSONRPCResponse, {"id": rid, "result": copy.deepcopy(p)}
+    else:
+        err = {"code": -32000, "message": MSGS[2]}
+        if p is not None:
+            err["data"] = copy.deepcopy(p)
+        wire = {"jsonrpc": "2.0", "id": rid, "error": err}
+        exp = {"id": rid, "error": copy.deepcopy(err)}
+        cls, args = jm.JSONRPCError, {"id": rid, "error": copy.deepcopy(err)}
+    if kind in ("request", "notification") and p is not None:
+        wire["params"] = copy.deepcopy(p)
+    uargs = {k: v for k, v in wire.items() if k != "jsonrpc"}
+    if way == "create":
+        if kind == "request":
+            return jm.create_request(m, copy.deepcopy(p), id=rid), exp
+        if kind == "notification":
+            return jm.create_notification(m, copy.deepcopy(p)), exp
+        if kind == "result":
+            return jm.create_response(rid, copy.deepcopy(p)), exp
+        return jm.create_error_response(rid, -32000, MSGS[2], copy.deepcopy(p)), exp
+    if way == "unified-classmethod":
+        if kind == "request":
+            return jm.JSONRPCMessage.create_request(m, copy.deepcopy(p), id=rid), exp
+        if kind == "notification":
+            return jm.JSONRPCMessage.create_notification(m, copy.deepcopy(p)), exp
+        if kind == "result":
+            return jm.JSONRPCMessage.create_response(rid, copy.deepcopy(p)), exp
+        return jm.JSONRPCMessage.create_error_response(rid, -32000, MSGS[2], copy.deepcopy(p)), exp
+    if way == "class+jsonrpc":
+        return cls(jsonrpc="2.0", **args), exp
+    if way == "class-default-jsonrpc":
+        return cls(**args), exp
+    if way == "unified+jsonrpc":
+        return jm.JSONRPCMessage(jsonrpc="2.0", **copy.deepcopy(uargs)), exp
+    if way == "unified-default-jsonrpc":
+        return jm.JSONRPCMessage(**copy.deepcopy(uargs)), exp
+    if way == "parse_message":
+        return jm.parse_message(copy.deepcopy(wire)), exp
+    if way == "model_validate":
+        return cls.model_validate(copy.deepcopy(wire)), exp
+    if way == "model_validate-without-jsonrpc":
+        return cls.model_validate(copy.deepcopy(uargs)), exp
+    return copy.deepcopy(wire), exp
+
+
+def _run_posts(cfg) -> Dict[str, Any]:
+    transport = POST_TRANSPORTS[cfg["transport"]]
+    way = WAYS[cfg["way"]]
+    rid = cfg["ids"][cfg["id"]]
+    J = Judge(f"{transport}:{way}")
+    msgs: List[tuple] = []
+    for kind in POST_KINDS:
+        for p in _post_payloads():
+            ctx = f"{transport} <- {kind} built by {way}, id={_show(rid)}, payload={_show(p)}"
+            try:
+                b = _built(way, kind, rid, p)
+            except Exception as e:  # noqa: BLE001
+                J.count("cases")
+                J.bad("emitter-raised", f"building the message raised {type(e).__name__}: {str(e)[:100]}; {ctx}", exc=type(e).__name__)
+                continue
+            if b is not None:
+                msgs.append((kind, b[0], b[1], ctx))
+    loop = new_loop(horizon=900)
+    q = seams.Quiescence(loop)
+    wires: List[Any] = []
+    info: Dict[str, Any] = {}
+
+    async def drain_forever(read):
+        try:
+            while True:
+                await read.receive()
+        except BaseException:  # noqa: BLE001
+            return
+
+    async def send_all(write, count, read=None):
+        import asyncio
+
+        dt = asyncio.ensure_future(drain_forever(read)) if read is not None else None
+        try:
+            await _send_all(write, count)
+        finally:
+            if dt is not None:
+                dt.cancel()
+                try:
+                    await dt
+                except BaseException:  # noqa: BLE001
+                    pass
+
+    async def _send_all(write, count):
+        for kind, obj, exp, ctx in msgs:
+            n0 = count()
+            await write.send(obj)
+            await q.settle()
+            wires.append((kind, exp, ctx, n0, count()))
+
+    async def main():
+        import httpx
+
+        from ..seams_http import ScriptedStream, patched_httpx
+
+        if transport == "stdio":
+            from chuk_mcp.transports.stdio.stdio_client import StdioClient
+
+            proc = seams.FakeProcess()
+            with seams.patched_open_process(lambda cmd, kw: proc):
+                async with StdioClient(seams.stdio_params()) as client:
+                    _r, write = client.get_streams()
+                    await send_all(write, lambda: len(proc.stdin.sends))
+            info["bodies"] = [bytes(x) for x in proc.stdin.sends]
+            return
+        if transport == "streamable-http":
+            from chuk_mcp.transports.http.http_client import http_client
+            from chuk_mcp.transports.http.parameters import StreamableHTTPParameters
+
+            def handler(rec):
+                return httpx.Response(202, content=b"")
+
+            with patched_httpx(handler) as px:
+                async with http_client(StreamableHTTPParameters(url="http://mcp.test/mcp", timeout=5.0)) as (_r, write):
+                    await send_all(write, lambda: len([r for r in px.requests if r.method == "POST"]), _r)
+                info["bodies"] = [r.body for r in px.requests if r.method == "POST"]
+            return
+        from chuk_mcp.transports.sse.parameters import SSEParameters
+        from chuk_mcp.transports.sse.sse_client import sse_client
+
+        stream = ScriptedStream()
+        stream.feed(b"event: endpoint\ndata: /messages/?session_id=abc\n\n")
+
+        def handler(rec):
+            if rec.method == "GET":
+                return httpx.Response(200, headers={"content-type": "text/event-stream"}, stream=stream)
+            body = rec.json()
+            if isinstance(body, dict) and body.get("id") is not None:
+                # anything that bears an id is answered at once, so that the transport moves on to the next message
+                return httpx.Response(200, headers={"content-type": "application/json"},
+                                      content=json.dumps({"jsonrpc": "2.0", "id": body["id"], "result": {}}).encode())
+            return httpx.Response(202, content=b"")
+
+        with patched_httpx(handler) as px:
+            async with sse_client(SSEParameters(url="http://sse.test", timeout=2.0)) as (_r, write):
+                await send_all(write, lambda: len([r for r in px.requests if r.method == "POST"]), _r)
+            info["bodies"] = [r.body for r in px.requests if r.method == "POST"]
+
+    with sched.patched_uuid():
+        status, val = loop.run_main(main())
+    loop.abandon()
+    if status != "ok":
+        raise core.HarnessError(f"{transport} harness did not finish: {status} {val!r}")
+    bodies = info["bodies"]
+    for kind, exp, ctx, n0, n1 in wires:
+        J.count("cases")
+        if n1 - n0 != 1:
+            J.bad("transport-write-count", f"{n1 - n0} writes/POSTs for one message; {ctx}", writes=min(n1 - n0, 2))
+            continue
+        raw = bodies[n0]
+        try:
+            w = json.loads(raw.decode("utf-8"))
+        except Exception as e:  # noqa: BLE001
+            J.bad("body-not-json", f"bytes {raw[:100]!r}: {e!r}; {ctx}")
+            continue
+        J.count("emitted")
+        J.wire(w, "wire-bytes", kind, exp, ctx)
+    return {"outcome": f"posts:{transport}", "violations": J.viol, "counters": J.cnt, "emitter": J.emitter, "wire_digest": J.h.hexdigest()}
+
 
 def _run_stdio_own(cfg) -> Dict[str, Any]:
     from chuk_mcp.transports.stdio.stdio_client import StdioClient
@@ -1009,6 +1310,14 @@ def _run_stdio_own(cfg) -> Dict[str, Any]:
 CONVERT_SOURCES = ["request", "notification", "result", "error"]
 
 
+def convert_values(depth: int) -> list:
+    """result / error.data payloads of the converter part: every value of depth <= 1 plus every object of the given depth."""
+    key = ("convert-values", depth)
+    if key not in _TABLES:
+        _TABLES[key] = list(table("values", 1)) + table("objects", depth)
+    return _TABLES[key]
+
+
 def _run_convert(cfg) -> Dict[str, Any]:
     from chuk_mcp.protocol.messages import json_rpc_message as jm
 
@@ -1019,7 +1328,7 @@ def _run_convert(cfg) -> Dict[str, Any]:
     if kind in ("request", "notification"):
         payloads = [None] + table("objects", cfg["depth"])
     else:
-        payloads = table("values", cfg["depth"])
+        payloads = convert_values(cfg["depth"])
     outs = set()
     for p in payloads[cfg["lo"]:cfg["hi"]]:
         J.count("cases")
@@ -1139,6 +1448,10 @@ def _run_part(cfg: Dict[str, Any]) -> Dict[str, Any]:
         return _run_rejection(cfg)
     if part == "raw":
         return _run_raw(cfg)
+    if part == "progress":
+        return _run_progress(cfg)
+    if part == "posts":
+        return _run_posts(cfg)
     if part == "stdio-own":
         return _run_stdio_own(cfg)
     if part == "convert":
@@ -1257,6 +1570,8 @@ def run(tier: str, only=None) -> core.Result:
                 for ci, si in combos:
                     # the full payload table for the first (code, message); a depth-1 table for the others
                     dd = d if (ci, si) in ((None, None), (0, 2)) else 1
+                    if dd == 1 and dd != d and i is not None and i >= 5 and tier == "quick":
+                        continue  # the other (code, message) pairs with the first five ids only
                     nn = n if dd == d else len(table("values", 1))
                     for lo, hi in _ranges(nn, BLOCK):
                         out.append({"part": "ctor", "ctor": c, "ids": ids, "id": i, "method": mi, "code": ci, "msg": si,
@@ -1279,8 +1594,17 @@ def run(tier: str, only=None) -> core.Result:
     # ---- (b) helpers -----------------------------------------------------------------------
     out = explorer.explore(RUN, helper_cfg)
     sched.absorb(res, "b-send-helpers", RUN, out, helper_cfg)
-    sched.debug_pass(res, "b-send-helpers", RUN, helper_cfg, every=(7 if tier == "quick" else 11))
+    sched.debug_pass(res, "b-send-helpers", RUN, helper_cfg, every=(15 if tier == "quick" else 11))
     samples += _pick("b-send-helpers", helper_cfg)
+
+    # ---- (b') progress-token emitters ----------------------------------------------------------
+    pem = discover_progress_emitters(disc)
+    nmeta = len(_meta_params())
+    cfgs = [{"part": "progress", "emitter": e, "lo": lo, "hi": min(nmeta, lo + 12)} for e in pem for lo in range(0, nmeta, 12)]
+    if cfgs:
+        out = explorer.explore(RUN, cfgs)
+        sched.absorb(res, "b-progress-token-emitters", RUN, out, cfgs)
+        sched.debug_pass(res, "b-progress-token-emitters", RUN, cfgs, every=3)
 
     # ---- (c) server ------------------------------------------------------------------------
     ids_srv = (IDS_FEW + [-1, "0", 2 ** 53 + 1]) if tier == "quick" else IDS_FEW
@@ -1313,6 +1637,14 @@ def run(tier: str, only=None) -> core.Result:
     out = explorer.explore(RUN, cfgs)
     sched.absorb(res, "d-batch-rejection-error", RUN, out, cfgs, min_outcomes=1)
 
+    pids = [0, 2 ** 64 - 1, "", "007", "é"]
+    cfgs = [{"part": "posts", "transport": ti, "way": wi, "ids": pids, "id": ii}
+            for ti in range(len(POST_TRANSPORTS)) for wi in range(len(WAYS)) for ii in range(len(pids))]
+    out = explorer.explore(RUN, cfgs)
+    sched.absorb(res, "d-transport-wire-forms", RUN, out, cfgs)
+    samples += [{"part": "d-transport-wire-forms", "index": i, "case": {"transport": POST_TRANSPORTS[cfgs[i]["transport"]], "way": WAYS[cfgs[i]["way"]],
+                 "id": _show(pids[cfgs[i]["id"]])}} for i in (0, len(cfgs) // 2, len(cfgs) - 1)]
+    sched.debug_pass(res, "d-transport-wire-forms", RUN, cfgs, every=7)
     cfgs = [{"part": "stdio-own", "version": v, "shape": si} for v in ("2025-06-18", "2025-06-19", "2030-01-01")
             for si in range(len(PEER_SHAPES))]
     out = explorer.explore(RUN, cfgs)
@@ -1323,7 +1655,7 @@ def run(tier: str, only=None) -> core.Result:
     # ---- (f) converters and the wrapper view -----------------------------------------------------
     cfgs = []
     for ki, kn in enumerate(CONVERT_SOURCES):
-        n = n_obj if kn in ("request", "notification") else n_val
+        n = n_obj if kn in ("request", "notification") else len(convert_values(min(depth, 2)))
         for ii in range(len(IDS_FEW)):
             for mi in (range(len(METHODS)) if kn in ("request", "notification") else [0]):
                 for lo, hi in _ranges(n, BLOCK):
@@ -1341,7 +1673,7 @@ def run(tier: str, only=None) -> core.Result:
     cfgs = []
     if "protocol/features/batching.py:BatchProcessor.process_message_data" in raw:
         cfgs += [{"part": "raw", "which": "process_message_data", "version": v, "ids": IDS, "id": ii}
-                 for v in (None, "2024-11-05", "2025-06-17", "2025-06-18") for ii in range(len(IDS))]
+                 for v in (None, "2024-11-05", "2025-06-17", "2025-06-18") for ii in range(0, len(IDS), 2)]
     if "protocol/types/elicitation.py:ElicitationClient.handle_elicitation_request" in raw:
         cfgs += [{"part": "raw", "which": "elicitation-client", "ids": ids_srv, "id": ii, "depth": depth, "lo": lo, "hi": hi}
                  for ii in range(len(ids_srv)) for lo, hi in _ranges(n_obj - 1, BLOCK)]
@@ -1351,7 +1683,7 @@ def run(tier: str, only=None) -> core.Result:
     if cfgs:
         out = explorer.explore(RUN, cfgs)
         sched.absorb(res, "e-raw-dict-emitters", RUN, out, cfgs)
-        sched.debug_pass(res, "e-raw-dict-emitters", RUN, cfgs, every=(9 if tier == "quick" else 23))
+        sched.debug_pass(res, "e-raw-dict-emitters", RUN, cfgs, every=(19 if tier == "quick" else 23))
         samples += _pick("e-raw-dict-emitters", cfgs)
 
     # ---- measured counts -----------------------------------------------------------------
@@ -1375,6 +1707,7 @@ def run(tier: str, only=None) -> core.Result:
                                                                         "request-not-parseable", "no-response", "error-with-null-id"))}
     cov["raw_dict_emitters_discovered"] = {r: ("driven: " + RAW_DRIVEN[r]) if r in RAW_DRIVEN else ("undriven: " + RAW_UNDRIVEN.get(r, "?"))
                                            for r in raw}
+    cov["progress_token_emitters_discovered"] = [hd.short(e["name"]) if e["what"] == "helper" else _ctor_label(e["ctor"]) for e in pem]
     cov["constructors_discovered"] = [_ctor_label(c) for c in ctors]
     cov["send_helpers_discovered"] = [h["name"] for h in disc["helpers"]]
     cov["send_methods_covered_by_transport_part"] = disc["methods"]
@@ -1392,11 +1725,16 @@ def run(tier: str, only=None) -> core.Result:
         "parameters; (c) MCPServer handler: 14 method cases x id x every object as params/arguments; the server, stdio and elicitation parts use the 8 ids "
         "{0, 2^64-1, empty, 007, non-ASCII, -1, '0', 2^53+1} in quick; (d) stdio: 9 message kinds (typed, unified, "
         "dict) x id x payload through the real StdioClient to the scripted child's stdin; create_batch_rejection_error x 5 versions x 18 ids. "
+        "every emitter that adds a progress token (helpers taking progress_callback, constructors taking progress_token - discovered by signature) x params that "
+        "already carry _meta {empty, other members, a stale token, nested nulls, every depth-1 object}: the emitted params must equal the given ones plus exactly the "
+        "token. What the three transports put on the wire (stdio stdin bytes, Streamable-HTTP POST body, legacy SSE POST body via the scripted httpx seam) for "
+        "messages built 10 ways (create_*, unified classmethods, classes with and WITHOUT jsonrpc=, unified class with and without, parse_message, model_validate "
+        "with and without the member, plain dict) x 4 kinds x 5 ids x 32 payloads: the bytes must be a valid envelope (jsonrpc exactly '2.0') with the given members. "
         "the lines the stdio client writes on its own: at 3 versions without batching, every batch of 1-2 members (request / response / error / bare object, "
         "a non-object in front) whose ids range over every JSON type (1.5, -0.5, true, false, null, [], [7], {}, {id:1}, strings, 0, 7, 2^64, absent) - every line "
         "written to the child must pass the envelope reference and the library's own parser. (f) JSONRPCMessage.to_specific_type / from_specific_type and "
         "JSONRPCMessageWrapper (model_dump(exclude_none=True), model_dump_json(exclude_none=True), the default model_dump_json() and the id/method/params/result/error properties) over both carriers x 5 ids (0, 2^64-1, empty string, digit string, non-ASCII) x method x every "
-        "object as params / every value as result / error.data (depth<=2). "
+        "object as params / every depth-1 value and every depth-2 object as result / error.data. "
         "(e) every function with a {'jsonrpc': ...} dict literal (AST walk) is driven or listed with a reason: BatchProcessor.process_message_data x 4 versions x 17 ids x "
         "every batch of 1..2 members over {request, notification, non-object} x handler behaviour {answers, silent, raises one of 13 exceptions incl. "
         "`code` attributes str / callable / None / float / bool / 2^64}; ElicitationClient.handle_elicitation_request x id x every object as user data and the "
